@@ -25,13 +25,21 @@ type genLayout struct {
 	audioCodec string // "aac" (1024) | "ac3" (1536) | ""
 	audioSegs  []int  // frames per audio segment
 	audioT     int    // audio timescale = sampling rate (0 = 48000)
+	merged2    bool   // a second video track V2 whose segments are pairs of V1's (half as many segments per loop)
+	notFor     string // properties (space separated) whose generators assume one segment grid for all representations
 	stpp       bool   // stpp text track at timescale 1000 following the video grid (needs ms-integral video durations)
 	thumbs     bool   // thumbnail track (needs uniform video durations)
 	textShort  int    // number of trailing video segments without a text segment (an asset that must be left out)
 }
 
+// curProp is the property whose generator is running ("" in the exec / child modes)
+var curProp string
+
 var genLayouts = []genLayout{
 	{name: "gen_ntsc", videoT: 30000, frameDur: 1001, videoSegs: []int{60060, 60060, 60060, 60060}, audioCodec: "aac", audioSegs: []int{94, 94, 94, 94}, stpp: true},
+	// two video tracks with different segment durations in the same loop (4 x 2 s and 2 x 4 s): the per-representation
+	// lookups (C01 .. C09, C15); the fault-injection, SCTE-35 and ingest generators walk one grid for all representations
+	{name: "gen_two", videoT: 90000, frameDur: 3600, videoSegs: []int{180000, 180000, 180000, 180000}, audioCodec: "aac", audioSegs: []int{94, 94, 94, 93}, merged2: true, notFor: "C13 C14 C16"},
 	{name: "gen_192", videoT: 12800, frameDur: 512, videoSegs: []int{24576, 24576, 24576, 24576, 24576}, audioCodec: "aac", audioSegs: []int{90, 90, 90, 90, 90}, stpp: true, thumbs: true},
 	{name: "gen_alt", videoT: 90000, frameDur: 3600, videoSegs: []int{360000, 720000, 360000, 720000}, timeURI: true, audioCodec: "aac", audioSegs: []int{281, 281, 281, 280}},
 	{name: "gen_irreg", videoT: 1000, frameDur: 100, videoSegs: []int{1000, 2500, 1500, 3000, 2000}, audioCodec: "ac3", audioSegs: []int{63, 63, 62, 63, 63}, stpp: true},
@@ -129,7 +137,7 @@ func msToTs(ms int) string {
 // genAsset writes one synthetic asset under root.
 func genAsset(root string, L genLayout) error {
 	dir := filepath.Join(root, L.name)
-	for _, d := range []string{"V1", "A1", "T1", "thumbs"} {
+	for _, d := range []string{"V1", "V2", "A1", "T1", "thumbs"} {
 		_ = os.MkdirAll(filepath.Join(dir, d), 0o755)
 	}
 	vInit, vTrack, err := retimedInit("testpic_2s/V300/init.mp4", L.videoT)
@@ -143,6 +151,8 @@ func genAsset(root string, L genLayout) error {
 	t := uint64(0)
 	var timeline strings.Builder
 	frameNo := 0
+	var pair []mp4.FullSample
+	var pairStart uint64
 	for i, d := range L.videoSegs {
 		var samples []mp4.FullSample
 		for k := 0; k < d/L.frameDur; k++ {
@@ -161,9 +171,24 @@ func genAsset(root string, L genLayout) error {
 		if err := writeSeg(filepath.Join(dir, name), uint32(i+1), vTrack, t, samples); err != nil {
 			return err
 		}
+		if L.merged2 {
+			if i%2 == 0 {
+				pair, pairStart = append([]mp4.FullSample(nil), samples...), t
+			} else {
+				pair = append(pair, samples...)
+				if err := writeSeg(filepath.Join(dir, fmt.Sprintf("V2/%d.m4s", i/2+1)), uint32(i/2+1), vTrack, pairStart, pair); err != nil {
+					return err
+				}
+			}
+		}
 		fmt.Fprintf(&timeline, `<S t="%d" d="%d"/>`, t, d)
 		t += uint64(d)
 		totalTicks += d
+	}
+	if L.merged2 {
+		if err := os.WriteFile(filepath.Join(dir, "V2/init.mp4"), vInit, 0o644); err != nil {
+			return err
+		}
 	}
 	durS := float64(totalTicks) / float64(L.videoT)
 	var asets strings.Builder
@@ -175,6 +200,11 @@ func genAsset(root string, L genLayout) error {
 		fmt.Fprintf(&asets, `<AdaptationSet contentType="video" mimeType="video/mp4" segmentAlignment="true" startWithSAP="1">
 <SegmentTemplate startNumber="1" timescale="%d" duration="%d" initialization="$RepresentationID$/init.mp4" media="$RepresentationID$/$Number$.m4s"/>
 <Representation id="V1" codecs="avc1.64001e" bandwidth="300000" width="640" height="360"/></AdaptationSet>`, L.videoT, L.videoSegs[0])
+	}
+	if L.merged2 {
+		fmt.Fprintf(&asets, `<AdaptationSet contentType="video" mimeType="video/mp4" segmentAlignment="true" startWithSAP="1">
+<SegmentTemplate startNumber="1" timescale="%d" duration="%d" initialization="$RepresentationID$/init.mp4" media="$RepresentationID$/$Number$.m4s"/>
+<Representation id="V2" codecs="avc1.64001e" bandwidth="600000" width="640" height="360"/></AdaptationSet>`, L.videoT, 2*L.videoSegs[0])
 	}
 	if L.audioCodec != "" {
 		initRel, frame, codec := "testpic_2s/A48/init.mp4", 1024, "mp4a.40.2"
@@ -266,6 +296,9 @@ func buildVodRoot() (string, error) {
 		return "", err
 	}
 	for _, L := range genLayouts {
+		if curProp != "" && strings.Contains(" "+L.notFor+" ", " "+curProp+" ") {
+			continue
+		}
 		if err := genAsset(root, L); err != nil {
 			return "", fmt.Errorf("genAsset %s: %w", L.name, err)
 		}
